@@ -340,8 +340,14 @@ func (w *World) GenPacket(r *hlib.Rand, peer *Cert) (firewall.Packet, bool) {
 	p.LocalPort = uint16(hlib.Pick(r, ports...))
 	p.RemotePort = uint16(hlib.Pick(r, ports...))
 	p.LocalAddr = w.Local[r.Intn(len(w.Local))]
+	if r.Chance(2, 3) {
+		p.LocalAddr = w.My.CNets[r.Intn(len(w.My.CNets))].Addr()
+	}
 	if r.Chance(4, 5) {
 		p.RemoteAddr = peer.CNets[r.Intn(len(peer.CNets))].Addr()
+		for k := 0; k < 3 && !w.inMine(p.RemoteAddr); k++ {
+			p.RemoteAddr = peer.CNets[r.Intn(len(peer.CNets))].Addr()
+		}
 	} else if len(peer.CUnsafe) > 0 && r.Chance(2, 3) {
 		p.RemoteAddr = AddrIn(r, peer.CUnsafe[r.Intn(len(peer.CUnsafe))])
 	} else {
@@ -386,7 +392,7 @@ func (w *World) GenPacket(r *hlib.Rand, peer *Cert) (firewall.Packet, bool) {
 				p.RemoteAddr = Edge(r, c)
 			}
 		}
-		if ru.LocalCidr != "" && ru.LocalCidr != "any" && r.Chance(1, 2) {
+		if ru.LocalCidr != "" && ru.LocalCidr != "any" && r.Chance(1, 4) {
 			c := netip.MustParsePrefix(ru.LocalCidr)
 			if r.Chance(2, 3) {
 				p.LocalAddr = AddrIn(r, c)
@@ -405,6 +411,15 @@ func (w *World) GenPacket(r *hlib.Rand, peer *Cert) (firewall.Packet, bool) {
 		p.RemoteAddr = RandAddr(r, w.V6)
 	}
 	return p, incoming
+}
+
+func (w *World) inMine(a netip.Addr) bool {
+	for _, n := range w.My.CNets {
+		if n.Contains(a) {
+			return true
+		}
+	}
+	return false
 }
 
 // EmitSetup writes reset / ca / peer / rule lines.
